@@ -2,7 +2,7 @@
 REG = dict(
     engine='E1-enum',
     technique='bounded-exhaustive enumeration of dependency-respecting input sequences, each executed twice on the real JSON-session handler (one request per input vs. one request for the whole program), differential oracle',
-    text="All dependency-respecting sequences of 1..4 (quick) / 1..5 (thorough) distinct inputs from a pool of 25 (two functions, the second calling the first; an enum; a struct; two lets, the second using the first; one assignment to an earlier let; five expressions using earlier names; a counter variable with a `for` loop, a `while` loop, a loop inside a top-level block and a loop followed by a definition in the same input, and two expressions reading them; two methods with their enum/struct receiver types in either order and a call of each), the last input always an expression. Oracle: the value displayed for the last expression in the incremental session equals the value displayed when the inputs are joined with newlines and sent as ONE request to a fresh session (the `Loaded N definitions ..., and the expression evaluated to V.` wrapper is stripped); additionally canon(Env) of both sessions restricted to user-visible state (user namespace entries, type names, test names, top-level bindings, namespace of the top frame) is equal.",
+    text="All dependency-respecting sequences of 1..4 (quick) / 1..5 (thorough) distinct inputs from a pool of 29 (two functions, the second calling the first; an enum; a struct; two lets, the second using the first; one assignment to an earlier let; five expressions using earlier names; a counter variable with a `for` loop, a `while` loop, a loop inside a top-level block and a loop followed by a definition in the same input, and two expressions reading them; two methods with their enum/struct receiver types in either order and a call of each; a function, the struct its signature names and a higher-order function in any order, and a call passing the first to the last), the last input always an expression. Oracle: the value displayed for the last expression in the incremental session equals the value displayed when the inputs are joined with newlines and sent as ONE request to a fresh session (the `Loaded N definitions ..., and the expression evaluated to V.` wrapper is stripped); additionally canon(Env) of both sessions restricted to user-visible state (user namespace entries, type names, test names, top-level bindings, namespace of the top frame) is equal.",
     note='Every name is defined once and every input is error-free (checked: an error in the incremental session is a generator error). Function values are displayed with their definition line, which legitimately differs between the two layouts and is masked. Value stacks and pending expressions are not compared.',
     design_ref='DESIGN.md §6 C11',
 )
@@ -43,6 +43,11 @@ POOL = [  # (id, kind, source, direct dependencies)
     ("Rc", "struct", "struct Rc { rw: Int }", []),
     ("e_area", "expr", "Mk.area()", ["m_area", "Sq"]),
     ("e_w", "expr", "Rc{ rw: 4 }.w()", ["m_w", "Rc"]),
+    # a function whose signature names a struct that may arrive later, used first-class through a Fun<..> parameter
+    ("f_dim", "fun", "fun area_of(d: Dim): Int { d.dw * 2 }", []),
+    ("Dim", "struct", "struct Dim { dw: Int }", []),
+    ("hof", "fun", "fun apply_dim(g: Fun<(Dim), Int>, d: Dim): Int { g(d) }", []),
+    ("e_hof", "expr", "apply_dim(area_of, Dim{ dw: 3 })", ["f_dim", "Dim", "hof"]),
 ]
 BY_ID = {p[0]: p for p in POOL}
 WRAP = re.compile(r"^(?:Loaded .*?|Ran .*?), and the expression evaluated to (.*)\.$", re.S)
@@ -183,7 +188,7 @@ def run(ctx):
         sig = f"inputs={'+'.join(kinds)} last={BY_ID[s[-1]][2]} differs={what}"
         confirm(ctx, d)
         ctx.violation(sig, d, cli_cmd="garden reftest-json-session on (a) one request per input and (b) one request with the inputs joined by \\n; compare the last responses")
-    return (f"every dependency-respecting sequence of 1..{max_len} distinct inputs from the pool of 25 whose last input is an expression; each sequence is executed twice "
+    return (f"every dependency-respecting sequence of 1..{max_len} distinct inputs from the pool of 29 whose last input is an expression; each sequence is executed twice "
             "(incremental, one program). All sequences are non-trivial (they evaluate an expression that uses earlier inputs).")
 
 
